@@ -12,7 +12,7 @@ TIMEOUT_S = 300
 RULE = ('every (max1,max2,size) of the stated box, every npts in the stated cube x size, a fixed lattice of '
         'large values; oracle = brute-force divisor enumeration (pair must multiply to size and respect both '
         'maxima; RuntimeError iff no pair exists); non-trivial = more than one admissible factorisation exists, '
-        'or none exists; layouts: handler built on simmpi for every returned grid of the layout family')
+        'or none exists; layouts: handler built on simmpi for every returned grid of the layout family; setups: setupCylindricalGrid and setupFromFile on simulated worlds of 1..10 (14) ranks, with and without a plot-only rank (first, middle, last), two starting layouts: RuntimeError on all data ranks iff no factorisation of the number of DATA ranks exists, else every layout is built on an admissible grid, partitions the index space with non-empty blocks and can be connected')
 ASSUMPTIONS = ['simmpi Create_cart/Sub semantics (row-major ranks)',
                'termination is decided by a per-slab wall-clock limit (%d s for at most a few thousand calls)' % TIMEOUT_S]
 
@@ -43,7 +43,104 @@ def cases(tier, seed):
     for a in vals:
         for d in vals:
             out.append({'kind': 'layouts', 'npts0': a, 'npts3': d, 'vals': vals, 'size_upto': LAYOUT_MAXSIZE[tier], 'cost': 10})
+    # the two setup entry points (the callers of the selection): world sizes 1..P, with and without a plot-only rank
+    for npts in ([4, 6, 3, 5], [5, 4, 6, 4]) if tier == 'quick' else ([4, 6, 3, 5], [5, 4, 6, 4], [4, 4, 7, 9], [6, 5, 4, 4]):
+        for entry in ('setupCylindricalGrid', 'setupFromFile'):
+            for plot in (False, True):
+                out.append({'kind': 'setups', 'npts': npts, 'entry': entry, 'plot': plot, 'size_upto': 10 if tier == 'quick' else 14, 'cost': 60})
     return out
+
+
+def _setups_case(case):
+    import numpy as np
+    from pgv import sim, simmpi, env
+    MPI = sim.setup()
+    import os
+    from pygyro.initialisation.setups import setupCylindricalGrid, setupFromFile
+    npts = case['npts']
+    plot = case['plot']
+    L = {'flux_surface': [0, 3, 1, 2], 'v_parallel': [0, 2, 1, 3], 'poloidal': [3, 2, 1, 0]}
+    d = env.scratch_dir('c20setups')
+    sim.write_constants(os.path.join(d, 'initParams.json'), npts=list(npts))
+    viols = {}
+    evals = nontriv = 0
+    sample = None
+
+    def V(sig, what):
+        viols.setdefault(sig, {'sig': sig, 'what': what, 'detail': {}})
+    try:
+        for size in range(2 if plot else 1, case['size_upto'] + 1):
+            ndata = size - 1 if plot else size
+            adm = _admissible(min(npts[0], npts[3]), min(npts[2], npts[3]), ndata)
+            for draw in (sorted(set([0, size // 2, size - 1])) if plot else [0]):
+                for layout in ('v_parallel', 'poloidal'):
+                    tag = '%s npts %r world %d plot rank %s layout %s' % (case['entry'], npts, size, draw if plot else None, layout)
+
+                    def fn(r, draw=draw, layout=layout):
+                        comm = MPI.COMM_WORLD
+                        kw = dict(comm=comm, layout=layout)
+                        if plot:
+                            kw.update(plotThread=True, drawRank=draw)
+                        try:
+                            if case['entry'] == 'setupCylindricalGrid':
+                                g, c, t = setupCylindricalGrid(npts=list(npts), **kw)
+                            else:
+                                g, c, t = setupFromFile(d, **kw)
+                        except RuntimeError as e:
+                            return ('RuntimeError', str(e))
+                        if plot and r == draw:
+                            return ('plot', None)
+                        blocks = {}
+                        for nm in L:
+                            l = g.getLayout(nm)
+                            blocks[nm] = (tuple(int(x) for x in l.nprocs[:2]), tuple(int(x) for x in l.starts), tuple(int(x) for x in l.ends))
+                        g.setLayout('flux_surface')
+                        g.setLayout(layout)
+                        return ('ok', blocks)
+                    evals += 1
+                    if len(adm) != 1 or plot:
+                        nontriv += 1
+                    try:
+                        import io
+                        import sys
+                        old = sys.stdout
+                        sys.stdout = io.StringIO()
+                        try:
+                            res = simmpi.World(size).run(fn)
+                        finally:
+                            sys.stdout = old
+                    except Exception as e:  # noqa
+                        V('setup-exception:%s:%s' % (case['entry'], type(e).__name__), '%s: %s: %s (admissible process grids for %d data ranks: %r)' % (
+                            tag, type(e).__name__, e, ndata, adm))
+                        continue
+                    data = [x for r, x in enumerate(res) if not (plot and r == draw)]
+                    raised = [x[0] == 'RuntimeError' for x in data]
+                    if any(raised) != all(raised):
+                        V('setup-ranks-disagree', '%s: only some ranks raised RuntimeError' % tag)
+                        continue
+                    if all(raised):
+                        if adm:
+                            V('setup-refuses-although-a-factorisation-exists', '%s: RuntimeError although %r are admissible for %d data ranks' % (tag, adm, ndata))
+                        continue
+                    if not adm:
+                        V('setup-accepts-although-no-factorisation-exists', '%s: no admissible grid for %d data ranks but the setup succeeded' % (tag, ndata))
+                        continue
+                    for nm, order in L.items():
+                        cover = np.zeros([npts[k] for k in order], dtype=int)
+                        for x in data:
+                            gp, st, en = x[1][nm]
+                            if gp[0] * gp[1] != ndata or gp not in adm:
+                                V('setup-grid-not-a-valid-factorisation', '%s: layout %s built on process grid %r for %d data ranks (admissible %r)' % (tag, nm, gp, ndata, adm))
+                            if min(e - s for s, e in zip(st, en)) < 1:
+                                V('setup-empty-block', '%s: layout %s block %r..%r is empty' % (tag, nm, st, en))
+                            cover[tuple(slice(a, b) for a, b in zip(st, en))] += 1
+                        if not (cover == 1).all():
+                            V('setup-layout-not-a-partition', '%s: layout %s: %d points owned by nobody, %d by several ranks' % (
+                                tag, nm, int((cover == 0).sum()), int((cover > 1).sum())))
+                    sample = {'entry': case['entry'], 'world': size, 'plot_rank': draw if plot else None, 'grid': list(data[0][1]['poloidal'][0])}
+    finally:
+        env.rm(d)
+    return {'evals': evals, 'nontrivial': nontriv, 'violations': list(viols.values()), 'stats': {'setup_worlds': evals}, 'sample': sample}
 
 
 def _admissible(max1, max2, size):
@@ -127,6 +224,8 @@ def run_case(case):
             if len(viols) > 20:
                 break
         sample = {'args': [a, b, p], 'returned': r}
+    elif case['kind'] == 'setups':
+        return _setups_case(case)
     else:
         return _layouts_case(case)
     return {'evals': st['evals'], 'nontrivial': st['nontrivial'], 'violations': viols[:5],
